@@ -33,6 +33,7 @@ type configResult struct {
 	CGEdges int
 	Files   []FileInfo
 	Pkgs    []string
+	Norm    *normReport
 }
 
 func main() {
@@ -44,9 +45,19 @@ func main() {
 	explain := flag.String("explain", "", "replay file to explain: re-runs that obligation on the current tree")
 	listRules := flag.Bool("list", false, "list properties and rules")
 	manifest := flag.Bool("manifest", false, "print MANIFEST.json for the registered properties")
+	normDump := flag.Bool("normalize-dump", false, "print the normalised (helper-inlined) source files and the report")
 	flag.Parse()
 	if *manifest {
 		emitManifest()
+		return
+	}
+	if *normDump {
+		ov, rep := normalizeOverlay(rc.repo, "", nil)
+		b, _ := json.MarshalIndent(rep, "", " ")
+		fmt.Println(string(b))
+		for _, k := range sortedKeys(ov) {
+			fmt.Printf("==== %s\n%s\n", k, ov[k])
+		}
 		return
 	}
 	rc.seed, _ = strconv.Atoi(os.Getenv("VERIF_SEED"))
@@ -82,11 +93,13 @@ func envOr(k, d string) string {
 
 // analyse runs the rules of one property on one build configuration.
 func analyse(repo, goarch string, overlay map[string][]byte, spec *PropertySpec, vtaToo bool) (*configResult, *Program, error) {
+	// normalisation pre-pass: inline calls to helpers outside the rules' vocabulary
+	overlay, norm := normalizeOverlay(repo, goarch, overlay)
 	P, err := Load(repo, goarch, overlay, vtaToo)
 	if err != nil {
 		return nil, nil, err
 	}
-	cr := &configResult{GOARCH: goarch, Graph: "cha", Funcs: len(P.Funcs), Files: P.Files}
+	cr := &configResult{GOARCH: goarch, Graph: "cha", Funcs: len(P.Funcs), Files: P.Files, Norm: norm}
 	if goarch == "" {
 		cr.GOARCH = runtime.GOARCH
 	}
@@ -272,6 +285,7 @@ func runProperty(rc runConfig, spec *PropertySpec) int {
 	cov["configurations"] = cfgs
 	if len(configs) > 0 {
 		cov["files"] = configs[0].Files
+		cov["normalisation"] = configs[0].Norm
 	}
 	if selfVal != nil {
 		cov["self_validation"] = selfVal
